@@ -5,6 +5,6 @@ export GOFLAGS=-mod=mod GOPROXY=off GOSUMDB=off GOTOOLCHAIN=local
 export GOCACHE=/verif/.cache/go-build
 mkdir -p /verif/.cache /verif/evidence
 cd /verif/mc
-go build $(go list ./... | grep -v cmd/c16)   # cmd/c16 only builds with its overlay
+go build $(go list ./... | grep -v -e cmd/c16 -e cmd/gooseb)   # these only build with their overlay
 go build -race -tags free -o /dev/null ./cmd/c10
 echo "setup ok"
